@@ -12,7 +12,7 @@ Coq tables and the predicates are proved in Coq over those tables.
 import hashlib, json, os, re, subprocess, sys, tempfile
 from concurrent.futures import ThreadPoolExecutor
 
-VERSION = "9"          # bump to invalidate the cache when the extractor changes
+VERSION = "11"          # bump to invalidate the cache when the extractor changes
 JOBS = 4
 
 
@@ -298,7 +298,12 @@ class Reducer:
         if k == "UnaryExprOrTypeTraitExpr":
             return {"k": "int", "v": "sizeof"}
         t = self.text(a, file)
-        if INT_TYPES.match(sqt) or INT_TYPES.match(qt):
+        call = None
+        if k == "CallExpr":
+            call = self.callee_name(s)
+        if (INT_TYPES.match(sqt) or INT_TYPES.match(qt)) and self.reads_memory(s):
+            cls = "elem"            # an integer read out of a buffer (x[i], *p): buffer data, not a count
+        elif INT_TYPES.match(sqt) or INT_TYPES.match(qt):
             cls = "num"
         elif re.search(r"\bchar\b.*(\*|\[)", sqt) and "uint" not in sqt and "unsigned" not in sqt:
             cls = "cstr"
@@ -306,7 +311,23 @@ class Reducer:
             cls = "buf"
         else:
             cls = "obj"
-        return {"k": cls, "t": sqt, "x": t}
+        d = {"k": cls, "t": sqt, "x": t}
+        if call:
+            d["call"] = call
+        return d
+
+    def reads_memory(self, e):
+        """does the (integer-valued) expression read an array element / dereference a pointer?"""
+        stack = [e]
+        while stack:
+            x = stack.pop()
+            k = x.get("kind")
+            if k == "ArraySubscriptExpr" or (k == "UnaryOperator" and x.get("opcode") == "*"):
+                return True
+            if k == "CallExpr":
+                continue
+            stack.extend(c for c in (x.get("inner") or []) if isinstance(c, dict))
+        return False
 
     def call(self, c, func):
         name = self.callee_name(c)
@@ -314,7 +335,7 @@ class Reducer:
         used, how = self.result_used(c)
         args = [self.argdesc(a, f) for a in (c.get("inner") or [])[1:]]
         self.calls.append({"file": f, "func": func, "callee": name, "line": line, "used": used, "how": how,
-                           "args": args, "text": self.text(c, f) if name is None else ""})
+                           "args": args, "text": self.text(c, f)})
 
     # --- points-to constraints and write events (consumed by tools/globals.py) -----------------
     # abstract objects:  G:<name>[@tu]  static-storage object      L:<func>:<name>@tu  local
